@@ -9,7 +9,7 @@ EXPLANATION = (
     "Static decision of the weak-delete clauses: (a) ValueType::is_tombstone is true for Tombstone and WeakTombstone and every "
     "read path tests through it (tree::ignore_tombstone_value, the final filter of TreeIter::create_range, "
     "InternalValue::is_tombstone); no function reachable from the read APIs compares value_type with ValueType::Tombstone "
-    "directly; (b) in CompactionStream::next the weak-tombstone annihilation is guarded by same user key, peeked.seqno < "
+    "directly; (b) in CompactionStream::next the weak-tombstone annihilation is guarded by same user key, head.seqno <= "
     "gc threshold, peeked type == Value, head type == WeakTombstone, and is preceded by drain_key (the value beneath and "
     "everything older go together); (c) a lone weak tombstone is kept unless tombstones are being evicted (discard census, "
     "C01.c). Not decided: equivalence with remove() over histories.")
@@ -82,7 +82,7 @@ def c13b(prog, R):
         return
     s = ann[0]
     g = sm.guards(s)
-    r.check(sm.SAME_KEY in g and sm.BELOW_WATERMARK in g, "%s|annihilation under same key & peeked.seqno < gc threshold" % sm.path,
+    r.check(sm.SAME_KEY in g and sm.BELOW_WATERMARK in g, "%s|annihilation under same key & head.seqno <= gc threshold" % sm.path,
             "a weak tombstone and the value beneath can be dropped for a different key or above the watermark", "", " & ".join(g)[-200:])
     d = sm.let_def("drop_weak_tombstone")
     want = "((PEEKED.key.value_type == ValueType::Value) && (HEAD.key.value_type == ValueType::WeakTombstone))"
